@@ -6,7 +6,8 @@ Property theorems only.  `cfg.gen` selects the engine: `true` = `Converter` (hoo
 `false` = `BaseConverter` (`structure_attrs_fromdict/fromtuple`, `unstructure_attrs_asdict/astuple`,
 `_unstructure_seq/_mapping` dispatching on the run-time class).  The common type support is
 `Ty.supU false` / `World.SupU false` (what `BaseConverter.__init__` registers hooks for: no TypedDict, no
-`Annotated`, NewType and heterogeneous tuples over primitives only).
+`Annotated`, NewType, heterogeneous tuples and NamedTuples over primitives only -- `World.SupU.ntPrim`; a NamedTuple
+position is a tuple position for `mapsAtCls`, and both engines run the same NamedTuple structure hook).
 -/
 namespace CattrsModel
 open GenInterp
@@ -104,7 +105,7 @@ theorem C06_initfalse_witness :
   refine ⟨?_, ?_, ?_, ?_⟩
   · simp [convUnstructure, c06Dict, Cfg.core, c06A1, un, unFields, emits, c06W2, World.fields, Field.key, normSeq, normSeqKV]
   · simp [convUnstructure, c06Dict, Cfg.core, c06A1, un, unFields, emits, c06W2, World.fields, Field.key, normSeq, normSeqKV]
-  · simp [c06A1, c06W2, wellTyped, wellTypedF, World.fields]
+  · simp [c06A1, c06W2, wellTyped, wellTypedF, World.fields, World.isNT]
   · simp [c06A1, scalarKeys, scalarKeysF]
 
 /-! Non-vacuity: a recursive class with a homogeneous-tuple field and an `Any` field; a value on which the two
@@ -125,7 +126,7 @@ example : c06W3.SupU false := World.supUB_sound _ _ (by decide)
 example : (AllInit c06W3) := allInitB_sound _ (by decide)
 example : (scalarKeys c06X3) = true := by decide
 example : wellTyped c06W3 (.coll .list (.cls 0)) (.coll .list [c06X3]) = true := by
-  simp [c06X3, c06W3, wellTyped, wellTypedL, wellTypedF, wellTypedAny, wellTypedAnyL, World.fields, SK.structTo]
+  simp [c06X3, c06W3, wellTyped, wellTypedL, wellTypedF, wellTypedAny, wellTypedAnyL, World.fields, SK.structTo, World.isNT]
 example : convUnstructure c06W3 { c06Dict with gen := false } (.cls 0) c06X3 =
     .dict [(.str "a", .int 1), (.str "b", .coll .tuple [.int 1, .int 2]),
            (.str "c", .coll .deque [.coll .tuple [.int 3]]), (.str "d", .none)] := by
